@@ -52,9 +52,9 @@ EmitOrder(perm) == IF "HashOrderLeaks" \in Deviations THEN perm ELSE SortSeq(per
 UsedSets == IF Family = "full" THEN {{k1, k2, k3, k4} : k1 \in Vocab, k2 \in Vocab, k3 \in Vocab, k4 \in Vocab} \cup {{}, Vocab}
             ELSE {{k1, k2, k3} : k1 \in Vocab, k2 \in Vocab, k3 \in Vocab} \cup {{}, Vocab}
 Cases ==
-    {[fam |-> "styles", used |-> u \cup x, elems |-> e[1], place |-> e[2], on |-> o[1], root |-> o[2], form |-> o[3], local |-> l,
-      rules |-> IF Injected(u, e[1], o[1], o[2]) THEN Rules(u, e[1]) ELSE {},
-      defs |-> IF Injected(u, e[1], o[1], o[2]) THEN Defs(u, e[1]) ELSE {}] :
+    {[fam |-> "styles", used |-> u \cup x, elems |-> e[1], place |-> e[2], on |-> ol[1], root |-> ol[2], form |-> ol[3], local |-> ol[4],
+      rules |-> IF Injected(u, e[1], ol[1], ol[2]) THEN Rules(u, e[1]) ELSE {},
+      defs |-> IF Injected(u, e[1], ol[1], ol[2]) THEN Defs(u, e[1]) ELSE {}] :
         u \in UsedSets, x \in {{}, NotReserved},
         \* where the classes sit: on the shapes, or spread over the author-written <tspan>
         \* children of a <text> (the design looks at every output element alike)
@@ -62,8 +62,10 @@ Cases ==
         e \in {<<{"rect"}, "shape">>, <<{"rect", "text"}, "shape">>, <<{"rect", "text"}, "tspan">>, <<{"rect"}, "root">>},
         \* the document is its outermost element: an <svg> inside or after another element is part
         \* of a fragment, and a fragment gets nothing
-        o \in {<<TRUE, TRUE, "root">>, <<FALSE, TRUE, "root">>, <<TRUE, FALSE, "fragment">>,
-               <<TRUE, FALSE, "svg-in-g">>, <<TRUE, FALSE, "svg-after-shape">>}, l \in BOOLEAN}
+        \* (local styles only change how the injected rules are written: varied where rules are injected)
+        ol \in {<<TRUE, TRUE, "root", TRUE>>, <<TRUE, TRUE, "root", FALSE>>, <<FALSE, TRUE, "root", FALSE>>, <<TRUE, FALSE, "fragment", FALSE>>,
+                <<TRUE, FALSE, "svg-in-g", FALSE>>}
+               \cup (IF Family = "full" THEN {} ELSE {<<TRUE, FALSE, "svg-after-shape", FALSE>>, <<FALSE, TRUE, "root", TRUE>>})}
 
 Init == c \in Cases
 Next == UNCHANGED c
